@@ -371,6 +371,8 @@ fn trees(seed: u64, n: u64) {
     let mut out = String::new();
     near_limit(&w, &mut out);
     limit_cases(&w, &mut out);
+    depth_cases(&w, &mut out);
+    rawpkh_cases(&w, &mut out);
     translated_trees(&w, seed, n / 6, &mut out);
     for s in CORPUS {
         if let Some(m) = corpus_ms::<Segwitv0>(&w, false, s) {
@@ -522,6 +524,8 @@ fn measure(c: &Case, wit: &[Vec<u8>], ssig: &ScriptBuf) -> Option<Measured> {
             let p = pushes(ssig)?;
             (0, p, ssig_len, 0)
         }
+        // key-only descriptors: no miniscript items, only the total weight is judged
+        "pkh" | "wpkh" | "shwpkh" => (-1, Vec::new(), 0, 0),
         _ => {
             if wit.len() < 2 {
                 (-1, wit.to_vec(), 0, 0)
@@ -547,6 +551,16 @@ fn desc_block(w: &World, c: &Case, env: &TxEnv, id: u64, sane: bool, rng: &mut R
         Err(_) => "PANIC".into(),
     };
     writeln!(out, "D {} {} sane={} mw={} desc={}", id, c.kind, sane as u8, mw_s, c.desc).unwrap();
+    // the deprecated figure (absolute weight of scriptSig with its length prefix + witness) and, for the
+    // key-only kinds, whether the key is an uncompressed one
+    #[allow(deprecated)]
+    let msw = catch_unwind(AssertUnwindSafe(|| c.desc.max_satisfaction_weight()));
+    let msw_s = match msw {
+        Ok(Ok(x)) => x.to_string(),
+        Ok(Err(_)) => "ERR".into(),
+        Err(_) => "PANIC".into(),
+    };
+    writeln!(out, "W msw={} unc={}", msw_s, c.keys.first().map(|&i| (i >= 6) as u8).unwrap_or(0)).unwrap();
     // per leaf: depth, dump (the T-line style figures are recomputed by the model from the dump)
     match &c.desc {
         Descriptor::Tr(tr) => {
@@ -1041,6 +1055,28 @@ fn descs(seed: u64, n: u64) {
             print!("{}", s);
         }
     }
+    // directed key-only descriptors: pkh over compressed and uncompressed keys, wpkh, sh(wpkh)
+    for (kind, i) in [("pkh", 0usize), ("pkh", 3), ("pkh", 6), ("pkh", 7), ("wpkh", 0), ("wpkh", 5), ("shwpkh", 0), ("shwpkh", 5), ("wpkh", 6), ("shwpkh", 7)] {
+        let k = w.key(i, false);
+        let d = catch_unwind(AssertUnwindSafe(|| match kind {
+            "pkh" => Descriptor::new_pkh(k).ok(),
+            "wpkh" => Descriptor::new_wpkh(k).ok(),
+            _ => Descriptor::new_sh_wpkh(k).ok(),
+        }));
+        match d {
+            Ok(Some(desc)) => {
+                let case = Case { desc, kind, ms_dump: vec![], exts: vec![], keys: vec![i], abs: vec![], rel: vec![], internal: None };
+                for env in lock_envs(&case, &mut rng) {
+                    id += 1;
+                    let mut s = String::new();
+                    desc_block(&w, &case, &env, id, true, &mut rng, &mut s);
+                    print!("{}", s);
+                }
+            }
+            // wpkh / sh(wpkh) over an uncompressed key must be refused
+            _ => println!("K rejected {} unc={}", kind, (i >= 6) as u8),
+        }
+    }
 }
 
 // ------------------------------------------------------------------ directed wide / near-limit scripts
@@ -1145,6 +1181,168 @@ fn limit_cases(w: &World, out: &mut String) {
             None => writeln!(out, "X limit-rejected segwitv0 pk_chain n={}", n).unwrap(),
         }
     }
+}
+
+/// H lines: the recursion-depth checks. `n:` wrappers above `c:pk_k(K0)` built bottom-up with `from_ast`
+/// (level L has tree height L + 1) until `from_ast` refuses; for the accepted levels from 396 on the
+/// height the library reports and `validate_non_top_level` with `max_recursive_depth` = height - 1 / height.
+fn depth_cases(w: &World, out: &mut String) {
+    use miniscript::Terminal as T;
+    use std::sync::Arc;
+    let base = Miniscript::<Key, Tap>::from_ast(T::PkK(w.key(0, true)))
+        .and_then(|m| Miniscript::<Key, Tap>::from_ast(T::Check(Arc::new(m))));
+    let mut cur = match base {
+        Ok(m) => m,
+        Err(_) => {
+            writeln!(out, "X depth-base-rejected").unwrap();
+            return;
+        }
+    };
+    for level in 1..=410usize {
+        let child = cur.clone();
+        let r = catch_unwind(AssertUnwindSafe(|| Miniscript::<Key, Tap>::from_ast(T::ZeroNotEqual(Arc::new(child)))));
+        match r {
+            Ok(Ok(m)) => {
+                if level >= 396 {
+                    let h = m.ext.tree_height;
+                    let vd = |lim: usize| -> String {
+                        let mut p: miniscript::ValidationParams = Tap::SANE;
+                        p.allow_duplicate_keys = true;
+                        p.max_recursive_depth = lim;
+                        match m.validate_non_top_level(&p) {
+                            Ok(()) => "ok".to_string(),
+                            Err(miniscript::ValidationError::MaxRecursiveDepthExceeded { .. }) => "depth".to_string(),
+                            Err(e) => verdict_class(&e),
+                        }
+                    };
+                    writeln!(out, "H tap {} accepted height={} lim={}:{} lim={}:{}", level, h, h - 1, vd(h - 1), h, vd(h)).unwrap();
+                }
+                cur = m;
+            }
+            Ok(Err(e)) => {
+                let c: String = format!("{:?}", e).chars().take_while(|c| c.is_alphanumeric()).collect();
+                writeln!(out, "H tap {} rejected:{}", level, c).unwrap();
+                return;
+            }
+            Err(_) => {
+                writeln!(out, "H tap {} PANIC", level).unwrap();
+                return;
+            }
+        }
+    }
+    writeln!(out, "H tap 411 never-rejected").unwrap();
+}
+
+// ------------------------------------------------------------------ raw key hashes (Q lines)
+// `expr_raw_pkh` only arises when a script is decoded from bytes. Each case encodes a script with
+// pk_h over a world key, decodes it (`decode_consensus`: no context checks, so that an uncompressed key
+// hash is also seen under Segwitv0), and satisfies the DECODED miniscript through a satisfier that
+// resolves the hash (`lookup_raw_pkh_pk` / `lookup_raw_pkh_ecdsa_sig`, x-only forms in Tap). Sizes are
+// measured on the returned bytes and printed next to the decoded object's own figures.
+struct RawSat<'a> {
+    w: &'a World,
+    sig: bitcoin::ecdsa::Signature,
+    xsig: bitcoin::taproot::Signature,
+}
+
+impl<'a> RawSat<'a> {
+    fn find(&self, h: &bitcoin::hashes::hash160::Hash) -> Option<bitcoin::PublicKey> {
+        use bitcoin::hashes::Hash;
+        self.w.pks.iter().copied().find(|pk| bitcoin::hashes::hash160::Hash::hash(&pk.to_bytes()) == *h)
+    }
+    fn find_x(&self, h: &bitcoin::hashes::hash160::Hash) -> Option<bitcoin::secp256k1::XOnlyPublicKey> {
+        use bitcoin::hashes::Hash;
+        self.w.pks.iter().map(|pk| pk.inner.x_only_public_key().0).find(|x| bitcoin::hashes::hash160::Hash::hash(&x.serialize()) == *h)
+    }
+}
+
+impl<'a> miniscript::Satisfier<bitcoin::PublicKey> for RawSat<'a> {
+    fn lookup_ecdsa_sig(&self, _: &bitcoin::PublicKey) -> Option<bitcoin::ecdsa::Signature> { Some(self.sig) }
+    fn lookup_raw_pkh_pk(&self, h: &bitcoin::hashes::hash160::Hash) -> Option<bitcoin::PublicKey> { self.find(h) }
+    fn lookup_raw_pkh_ecdsa_sig(&self, h: &bitcoin::hashes::hash160::Hash) -> Option<(bitcoin::PublicKey, bitcoin::ecdsa::Signature)> {
+        self.find(h).map(|pk| (pk, self.sig))
+    }
+}
+
+impl<'a> miniscript::Satisfier<bitcoin::secp256k1::XOnlyPublicKey> for RawSat<'a> {
+    fn lookup_tap_leaf_script_sig(&self, _: &bitcoin::secp256k1::XOnlyPublicKey, _: &bitcoin::taproot::TapLeafHash) -> Option<bitcoin::taproot::Signature> {
+        Some(self.xsig)
+    }
+    fn lookup_raw_pkh_x_only_pk(&self, h: &bitcoin::hashes::hash160::Hash) -> Option<bitcoin::secp256k1::XOnlyPublicKey> { self.find_x(h) }
+    fn lookup_raw_pkh_tap_leaf_script_sig(
+        &self,
+        hl: &(bitcoin::hashes::hash160::Hash, bitcoin::taproot::TapLeafHash),
+    ) -> Option<(bitcoin::secp256k1::XOnlyPublicKey, bitcoin::taproot::Signature)> {
+        self.find_x(&hl.0).map(|x| (x, self.xsig))
+    }
+}
+
+fn push_size(n: usize) -> usize {
+    n + if n < 76 { 1 } else if n < 256 { 2 } else { 3 }
+}
+
+fn rawpkh_shape(shape: usize, i: usize) -> String {
+    match shape {
+        0 => format!("c:pk_h(K{})", i),
+        1 => format!("and_v(vc:pk_h(K{}),pk(K1))", i),
+        _ => format!("or_d(c:pk_h(K{}),pk(K2))", i),
+    }
+}
+
+fn rawpkh_cases(w: &World, out: &mut String) {
+    use bitcoin::hashes::Hash;
+    let msg = Message::from_digest([7u8; 32]);
+    let sig = grind_sig(w, 0, msg); // 71-byte DER + sighash byte: the longest low-S form
+    let kp = bitcoin::secp256k1::Keypair::from_secret_key(&w.secp, &w.sks[0]);
+    let xs = w.secp.sign_schnorr_no_aux_rand(&msg, &kp);
+    let rs = RawSat { w, sig, xsig: bitcoin::taproot::Signature { signature: xs, sighash_type: bitcoin::sighash::TapSighashType::Default } };
+    macro_rules! go {
+        ($src:ty, $ctx:ty, $pk:ty, $tap:expr, $shape:expr, $i:expr, $kk:expr) => {{
+            let src = rawpkh_shape($shape, $i);
+            match corpus_ms::<$src>(w, $tap, &src) {
+                None => writeln!(out, "Q {} shape={} key={} SRC-REJECTED", ctx_name::<$ctx>(), $shape, $kk).unwrap(),
+                Some(m) => {
+                    let script = m.encode();
+                    match Miniscript::<$pk, $ctx>::decode_consensus(&script) {
+                        Err(_) => writeln!(out, "Q {} shape={} key={} DECODE-ERR", ctx_name::<$ctx>(), $shape, $kk).unwrap(),
+                        Ok(d) => {
+                            let raw = d.iter().filter(|x| matches!(x.node, miniscript::Terminal::RawPkH(_))).count();
+                            let dump = dump_str(w, &m.node).replace(&format!("pk_h {}", $i), "raw_pk_h 00");
+                            let mss = d.max_satisfaction_size().ok();
+                            let mse = d.max_satisfaction_witness_elements().ok();
+                            let o = |x: Option<usize>| x.map(|v| v.to_string()).unwrap_or("-".into());
+                            let r = catch_unwind(AssertUnwindSafe(|| d.satisfy(&rs)));
+                            let meas = match r {
+                                Err(_) => "status=PANIC".to_string(),
+                                Ok(Err(_)) => "status=ERR".to_string(),
+                                Ok(Ok(items)) => format!(
+                                    "status=OK n={} wsize={} ssig={}",
+                                    items.len(),
+                                    items.iter().map(|i| varint(i.len()) + i.len()).sum::<usize>(),
+                                    items.iter().map(|i| if i.is_empty() { 1 } else { push_size(i.len()) }).sum::<usize>()
+                                ),
+                            };
+                            writeln!(
+                                out,
+                                "Q {} shape={} key={} | {} | {} | raw={} ss={} enc={} mss={} mse={} {}",
+                                ctx_name::<$ctx>(), $shape, $kk, dump, ext_str(&d.ext), raw, d.script_size(), script.len(), o(mss), o(mse), meas
+                            )
+                            .unwrap();
+                        }
+                    }
+                }
+            }
+        }};
+    }
+    for shape in 0..3usize {
+        for &(i, kk) in &[(3usize, "c"), (6usize, "u")] {
+            go!(Legacy, Segwitv0, bitcoin::PublicKey, false, shape, i, kk);
+            go!(Legacy, Legacy, bitcoin::PublicKey, false, shape, i, kk);
+            go!(Legacy, BareCtx, bitcoin::PublicKey, false, shape, i, kk);
+        }
+        go!(Tap, Tap, bitcoin::secp256k1::XOnlyPublicKey, true, shape, 4usize, "x");
+    }
+    let _ = bitcoin::hashes::hash160::Hash::all_zeros();
 }
 
 /// tr(K5, leaves...) over directed leaf strings (one leaf, or a right-leaning tree)
